@@ -11,7 +11,8 @@ use crate::ev::Ctx;
 use crate::tape::Tape;
 use serde_json::{json, Value};
 
-const POOL: [&str; 5] = ["B0", "B1", "B2", "B3", "Clone"];
+// (G<i32> / G<u8>: the same trait path with different generic arguments are different bounds)
+const POOL: [&str; 7] = ["B0", "B1", "B2", "B3", "Clone", "G<i32>", "G<u8>"];
 
 #[derive(Clone, Debug)]
 struct FnDecl {
@@ -118,7 +119,7 @@ pub fn gen_case(t: &mut Tape, feature_unimock: bool) -> Case {
     for b in 0..4 {
         src.push_str(&format!("pub trait B{b} {{}}\n"));
     }
-    src.push_str("pub trait Extra {}\n");
+    src.push_str("pub trait Extra {}\npub trait G<T> {}\n");
     if module {
         src.push_str(&format!("#[::entrait::entrait({attr})]\npub mod m {{\n    use super::*;\n"));
         for f in &fns {
@@ -141,7 +142,7 @@ pub fn gen_case(t: &mut Tape, feature_unimock: bool) -> Case {
     }
     let mut fam: Vec<P> = vec![P { name: "XFull".into(), has: declared.clone(), field: "()", sync: true, send: true }];
     for &miss in &declared {
-        fam.push(P { name: format!("XMinus{}", POOL[miss]), has: declared.iter().copied().filter(|b| *b != miss).collect(), field: "()", sync: true, send: true });
+        fam.push(P { name: format!("XMinus{}", POOL[miss].replace('<', "_").replace('>', "")), has: declared.iter().copied().filter(|b| *b != miss).collect(), field: "()", sync: true, send: true });
     }
     fam.push(P { name: "XAllPool".into(), has: (0..POOL.len()).collect(), field: "()", sync: true, send: true });
     fam.push(P { name: "XNotSync".into(), has: declared.clone(), field: "::core::cell::Cell<u8>", sync: false, send: true });
@@ -151,8 +152,9 @@ pub fn gen_case(t: &mut Tape, feature_unimock: bool) -> Case {
         let clone = p.has.contains(&4);
         src.push_str(&format!("{}pub struct {}({});\nimpl Extra for {} {{}}\n", if clone { "#[derive(Clone)] " } else { "" }, p.name, p.field, p.name));
         for &b in &p.has {
-            if b < 4 {
-                src.push_str(&format!("impl B{b} for {} {{}}\nimpl B{b} for ::entrait::Impl<{}> {{}}\n", p.name, p.name));
+            if b != 4 {
+                let tr = POOL[b];
+                src.push_str(&format!("impl {tr} for {} {{}}\nimpl {tr} for ::entrait::Impl<{}> {{}}\n", p.name, p.name));
             }
         }
         // (Impl<T> derives Clone when T: Clone, so `Impl<X>: Clone` iff `X: Clone`)
@@ -214,7 +216,7 @@ fn run_single(name: &str, feature_unimock: bool, src: &str) -> Option<(String, S
 pub const TAPE_LEN: usize = 64;
 
 pub fn run(ctx: &mut Ctx) {
-    ctx.rule = "cases = entraited fns / modules of 1..4 fns declaring 0..4 dependency bounds from {B0..B3, Clone} inline, in a where clause, as `impl A + B`, split, or spread over \
+    ctx.rule = "cases = entraited fns / modules of 1..4 fns declaring 0..4 dependency bounds from {B0..B3, Clone, G<i32>, G<u8>} inline, in a where clause, as `impl A + B`, split, or spread over \
                 the fns of a module, by reference or by value, x mock settings {none, mock_api, unimock[=b], mockall[=b]} x both cargo feature settings; each program probes \
                 `X: TheTrait` and `Impl<X>: TheTrait` at run time for a family of types (full, one per missing bound, all-pool, !Sync, Sync+!Send) and compares with the spec; \
                 non-trivial = >=2 declared bounds, a split declaration, or module fns with different bounds (every case has probes expected true and probes expected false); distinct = distinct program text"
